@@ -226,6 +226,30 @@ func (fr *Frame) shouldInline(callee *ssa.Function, sp *FuncSpec) bool {
 	return true
 }
 
+// alwaysInlined: the callee-side mirror of shouldInline for contract-less
+// functions.
+func (P *Prog) alwaysInlined(callee *ssa.Function) bool {
+	if !P.isAnalysed(callee) || P.specFor(callee) != nil {
+		return false
+	}
+	if hasLoops(callee) || instrCount(callee) > maxInlineInstrs {
+		return false
+	}
+	for _, b := range callee.Blocks {
+		for _, in := range b.Instrs {
+			switch x := in.(type) {
+			case *ssa.Go, *ssa.Select, *ssa.Defer:
+				return false
+			case ssa.CallInstruction:
+				if x.Common().StaticCallee() == callee {
+					return false
+				}
+			}
+		}
+	}
+	return true
+}
+
 func shortFn(f *ssa.Function) string {
 	s := f.RelString(nil)
 	if i := strings.LastIndex(s, "/"); i >= 0 {
